@@ -39,6 +39,17 @@ def check_canonical(inp):
             fails.append(failure(clean[len(prefix):], np_, note="output_prefix=False must only omit the prefix"))
         if o.clean_vector(output_prefix=True) != clean:
             fails.append(failure(clean, o.clean_vector(output_prefix=True), note="output_prefix=True"))
+    # the same accessors on a second object in another call order (hash and == first): a canonical form must not
+    # depend on what was called before
+    o3 = obs.classes()[ver](s)
+    hash(o3)
+    (o3 == o)
+    if ver != "2":
+        np3 = o3.clean_vector(output_prefix=False)
+        if np3 != clean[len(prefix):]:
+            fails.append(failure(clean[len(prefix):], np3, note="clean_vector(output_prefix=False) after hash()/=="))
+    if o3.clean_vector() != clean:
+        fails.append(failure(clean, o3.clean_vector(), note="clean_vector() after hash()/==/clean_vector(output_prefix=False)"))
     k2, o2 = obs.construct(ver, clean)
     if k2 != "ok":
         fails.append(failure("clean vector re-parses", k2, note=clean))
